@@ -12,6 +12,7 @@ Real timing (compiler, CPU, allocator, crypto/subtle's implementation) is outsid
 import OtpVerif.Gen.Sites
 import OtpVerif.Model.Leak
 import OtpVerif.Lemmas.Validate
+import OtpVerif.Model.Wasm
 
 namespace OtpVerif.Props.C09
 open OtpVerif OtpVerif.Model OtpVerif.Model.Leak OtpVerif.Lemmas
@@ -141,6 +142,63 @@ theorem validateL_refines (code : Bytes) (len : Int) (c : Nat) (d : Out Bytes) (
     | err e => simp
     | panic => exact absurd rfl hd
 
+section WasmLeak
+open OtpVerif.Model.Wasm
+/-- leakage of the js/wasm binding's `validateHOTP` loop (`currCounter < 0` skips; `ValidateOTPWasm` per step) -/
+def wasmHotpProbeL (O : HashOracle) (code key : Bytes) (digits algo : Nat) (counter : Int) (i : Int) : Option (Bool × Trace) :=
+  if counter + i < 0 then none
+  else some (validateL code digits (toU64 (counter + i)) (deriveWasm O key (toU64 (counter + i)) digits algo))
+
+def wasmValidateHOTPL (O : HashOracle) (key code : Bytes) (counter : Int) (digits algo skew : Nat) : Bool × Trace :=
+  loopL (wasmHotpProbeL O code key digits algo counter) (skew : Int) (2 * skew + 1) (-(skew : Int))
+
+def wasmTotpProbeL (O : HashOracle) (code key : Bytes) (digits algo counter : Nat) (i : Int) : Option (Bool × Trace) :=
+  some (validateL code digits ((counter + toU64 i) % 2 ^ 64) (deriveWasm O key ((counter + toU64 i) % 2 ^ 64) digits algo))
+
+def wasmValidateTOTPL (O : HashOracle) (key code : Bytes) (counter digits algo skew : Nat) : Bool × Trace :=
+  loopL (wasmTotpProbeL O code key digits algo counter) (skew : Int) (2 * skew + 1) (-(skew : Int))
+
+/-- C09 (b) for the js/wasm binding: two rejected codes of the same length leave the same leakage trace in the
+binding's `validateHOTP` and `validateTOTP` loops (which re-implement the windows around `ValidateOTPWasm`) -/
+theorem C09_noninterference_wasm (O : HashOracle) (key code1 code2 : Bytes) (counter : Int) (c digits algo skew : Nat)
+    (hl : code1.length = code2.length) :
+    ((wasmValidateHOTPL O key code1 counter digits algo skew).1 = false → (wasmValidateHOTPL O key code2 counter digits algo skew).1 = false →
+      (wasmValidateHOTPL O key code1 counter digits algo skew).2 = (wasmValidateHOTPL O key code2 counter digits algo skew).2) ∧
+    ((wasmValidateTOTPL O key code1 c digits algo skew).1 = false → (wasmValidateTOTPL O key code2 c digits algo skew).1 = false →
+      (wasmValidateTOTPL O key code1 c digits algo skew).2 = (wasmValidateTOTPL O key code2 c digits algo skew).2) := by
+  constructor
+  · intro h1 h2
+    unfold wasmValidateHOTPL at *
+    apply loopL_noninterference _ _ _ _ _ _ h1 h2
+    intro i
+    unfold wasmHotpProbeL
+    by_cases hneg : counter + i < 0
+    · left; simp [hneg]
+    · right; simp only [hneg, if_false]
+      exact ⟨_, _, _, _, rfl, rfl, fun a b => validateL_noninterference code1 code2 _ _ _ hl a b⟩
+  · intro h1 h2
+    unfold wasmValidateTOTPL at *
+    apply loopL_noninterference _ _ _ _ _ _ h1 h2
+    intro i
+    right
+    exact ⟨_, _, _, _, rfl, rfl, fun a b => validateL_noninterference code1 code2 _ _ _ hl a b⟩
+
+/-- the leakage model of the binding's per-step validation refines `validateWasm` (same verdict) -/
+theorem validateL_refines_wasm (O : HashOracle) (code key : Bytes) (c d a : Nat) (hd : deriveWasm O key c d a ≠ .panic) :
+    validateWasm O code key c d a = .ok ((validateL code d c (deriveWasm O key c d a)).1,
+      match validateWasm O code key c d a with | .ok (_, e) => e | _ => none) := by
+  unfold validateWasm validateL
+  by_cases hlen : code.length ≠ d
+  · have : ((code.length : Int) ≠ (d : Int)) := by omega
+    simp [hlen, this]
+  · have : ¬ ((code.length : Int) ≠ (d : Int)) := by omega
+    simp only [hlen, this, if_false]
+    cases hdv : deriveWasm O key c d a with
+    | ok expected => by_cases h : ctEq code expected = true <;> simp [h]
+    | err e => simp
+    | panic => exact absurd hdv hd
+end WasmLeak
+
 -- non-vacuity: the site table is not empty and contains mixing sites (all sanctioned)
 example : (Gen.cmpSites.filter carriesHC).length ≥ 2 := by decide
 
@@ -152,3 +210,5 @@ end OtpVerif.Props.C09
 #print axioms OtpVerif.Props.C09.C09_noninterference_totp
 #print axioms OtpVerif.Props.C09.C09_noninterference_ocra
 #print axioms OtpVerif.Props.C09.validateL_refines
+#print axioms OtpVerif.Props.C09.C09_noninterference_wasm
+#print axioms OtpVerif.Props.C09.validateL_refines_wasm
